@@ -1,5 +1,144 @@
 import Asn1Verif.Base.Text
-/- line protocol, stream `per` — not implemented yet -/
+import Asn1Verif.Per.Prim
+/- line protocol, stream `per` (L1) -/
 namespace Driver.PerStream
-def handle (_args : List String) : String := "bad-op"
+open Asn1Verif Asn1Verif.Per Asn1Verif.Text
+
+def fnvBits (bs : Bits) : Nat :=
+  bs.foldl (fun h b => ((h ^^^ b.toNat) * 0x100000001b3) % 2 ^ 64) 0xcbf29ce484222325
+
+def hex16 (n : Nat) : String :=
+  String.ofList ((List.range 16).map fun i => hexDigit ((n / 16 ^ (15 - i)) % 16))
+
+def genBytes (n seed : Nat) : List (BitVec 8) :=
+  (List.range n).map fun i => BitVec.ofNat 8 ((i * 37 + seed * 101 + i / 256) % 2 ^ 64 % 256)
+
+def wr (o : Outcome Bits) : String := render bitsToString o
+
+def rd {α : Type} (f : α → String) (total : Nat) (o : Outcome (α × Bits)) : String :=
+  render (fun (p : α × Bits) => f p.1 ++ " " ++ toString (total - p.2.length)) o
+
+def inU64 (n : Nat) : Bool := n ≤ U64_MAX
+def optInU64 : Option Nat → Bool
+  | none => true
+  | some n => inU64 n
+
+def handle (args : List String) : String :=
+  match args with
+  | ["w-nnbi", lb, ub, v] =>
+    match parseOptNat lb, parseOptNat ub, parseNat v with
+    | some lb, some ub, some v => if optInU64 lb && optInU64 ub && inU64 v then wr (wNNBI lb ub v) else "bad-op"
+    | _, _, _ => "bad-op"
+  | ["w-len", lb, ub, v] =>
+    match parseOptNat lb, parseOptNat ub, parseNat v with
+    | some lb, some ub, some v =>
+      if optInU64 lb && optInU64 ub && inU64 v then
+        render (fun (p : Bits × Option Nat) => bitsToString p.1 ++ " " ++
+          (match p.2 with | none => "none" | some f => toString f)) (wLen lb ub v)
+      else "bad-op"
+    | _, _, _ => "bad-op"
+  | ["w-2s", bl, v] =>
+    match parseNat bl, parseInt v with
+    | some bl, some v => if inU64 bl && inI64 v then wr (w2s bl v) else "bad-op"
+    | _, _ => "bad-op"
+  | ["w-con", lb, ub, v] =>
+    match parseInt lb, parseInt ub, parseInt v with
+    | some lb, some ub, some v => if inI64 lb && inI64 ub && inI64 v then wr (wConstrained lb ub v) else "bad-op"
+    | _, _, _ => "bad-op"
+  | ["w-small", v] =>
+    match parseNat v with
+    | some v => if inU64 v then wr (wSmall v) else "bad-op"
+    | _ => "bad-op"
+  | ["w-semi", lb, v] =>
+    match parseInt lb, parseInt v with
+    | some lb, some v => if inI64 lb && inI64 v then wr (wSemi lb v) else "bad-op"
+    | _, _ => "bad-op"
+  | ["w-unc", v] =>
+    match parseInt v with
+    | some v => if inI64 v then wr (wUnconstrained v) else "bad-op"
+    | _ => "bad-op"
+  | ["w-idx", std, ext, i] =>
+    match parseNat std, parseBool ext, parseNat i with
+    | some std, some ext, some i => if inU64 std && inU64 i then wr (wIndex std ext i) else "bad-op"
+    | _, _, _ => "bad-op"
+  | ["w-oct", lb, ub, ext, h] =>
+    match parseOptNat lb, parseOptNat ub, parseBool ext, hexToBytes h with
+    | some lb, some ub, some ext, some d => if optInU64 lb && optInU64 ub then wr (wOctets lb ub ext d) else "bad-op"
+    | _, _, _, _ => "bad-op"
+  | ["w-bits", lb, ub, ext, b] =>
+    match parseOptNat lb, parseOptNat ub, parseBool ext, parseBits b with
+    | some lb, some ub, some ext, some d => if optInU64 lb && optInU64 ub then wr (wBitString lb ub ext d) else "bad-op"
+    | _, _, _, _ => "bad-op"
+  | ["rt-octn", lb, ub, ext, n, seed] =>
+    match parseOptNat lb, parseOptNat ub, parseBool ext, parseNat n, parseNat seed with
+    | some lb, some ub, some ext, some n, some seed =>
+      let data := genBytes n seed
+      match wOctets lb ub ext data with
+      | .ok bits =>
+        let rt := match rOctets lb ub ext bits with
+          | .ok (v, rest) => boolStr (v == data) ++ " " ++ toString rest.length
+          | .err k => "readerr:" ++ toString k
+          | .panic => "readpanic"
+        "ok " ++ toString bits.length ++ " " ++ hex16 (fnvBits bits) ++ " " ++ rt
+      | .err k => "err " ++ toString k
+      | .panic => "panic"
+    | _, _, _, _, _ => "bad-op"
+  | ["rt-bitsn", lb, ub, ext, n, seed] =>
+    match parseOptNat lb, parseOptNat ub, parseBool ext, parseNat n, parseNat seed with
+    | some lb, some ub, some ext, some n, some seed =>
+      let data := (bytesBits (genBytes ((n + 7) / 8) seed)).take n
+      match wBitString lb ub ext data with
+      | .ok bits =>
+        let rt := match rBitString lb ub ext bits with
+          | .ok (v, rest) => boolStr (v == data) ++ " " ++ toString rest.length
+          | .err k => "readerr:" ++ toString k
+          | .panic => "readpanic"
+        "ok " ++ toString bits.length ++ " " ++ hex16 (fnvBits bits) ++ " " ++ rt
+      | .err k => "err " ++ toString k
+      | .panic => "panic"
+    | _, _, _, _, _ => "bad-op"
+  | ["r-nnbi", lb, ub, b] =>
+    match parseOptNat lb, parseOptNat ub, parseBits b with
+    | some lb, some ub, some b => if optInU64 lb && optInU64 ub then rd toString b.length (rNNBI lb ub b) else "bad-op"
+    | _, _, _ => "bad-op"
+  | ["r-len", lb, ub, b] =>
+    match parseOptNat lb, parseOptNat ub, parseBits b with
+    | some lb, some ub, some b => if optInU64 lb && optInU64 ub then rd toString b.length (rLen lb ub b) else "bad-op"
+    | _, _, _ => "bad-op"
+  | ["r-2s", bl, b] =>
+    match parseNat bl, parseBits b with
+    | some bl, some b => if inU64 bl then rd toString b.length (r2s bl b) else "bad-op"
+    | _, _ => "bad-op"
+  | ["r-con", lb, ub, b] =>
+    match parseInt lb, parseInt ub, parseBits b with
+    | some lb, some ub, some b => if inI64 lb && inI64 ub then rd toString b.length (rConstrained lb ub b) else "bad-op"
+    | _, _, _ => "bad-op"
+  | ["r-small", b] =>
+    match parseBits b with
+    | some b => rd toString b.length (rSmall b)
+    | _ => "bad-op"
+  | ["r-semi", lb, b] =>
+    match parseInt lb, parseBits b with
+    | some lb, some b => if inI64 lb then rd toString b.length (rSemi lb b) else "bad-op"
+    | _, _ => "bad-op"
+  | ["r-unc", b] =>
+    match parseBits b with
+    | some b => rd toString b.length (rUnconstrained b)
+    | _ => "bad-op"
+  | ["r-idx", std, ext, b] =>
+    match parseNat std, parseBool ext, parseBits b with
+    | some std, some ext, some b => if inU64 std then rd toString b.length (rIndex std ext b) else "bad-op"
+    | _, _, _ => "bad-op"
+  | ["r-oct", lb, ub, ext, b] =>
+    match parseOptNat lb, parseOptNat ub, parseBool ext, parseBits b with
+    | some lb, some ub, some ext, some b =>
+      if optInU64 lb && optInU64 ub then rd bytesToHex b.length (rOctets lb ub ext b) else "bad-op"
+    | _, _, _, _ => "bad-op"
+  | ["r-bits", lb, ub, ext, b] =>
+    match parseOptNat lb, parseOptNat ub, parseBool ext, parseBits b with
+    | some lb, some ub, some ext, some b =>
+      if optInU64 lb && optInU64 ub then rd bitsToString b.length (rBitString lb ub ext b) else "bad-op"
+    | _, _, _, _ => "bad-op"
+  | _ => "bad-op"
+
 end Driver.PerStream
